@@ -1,13 +1,17 @@
 #!/bin/bash
-# usage: tools/try_harmless.sh
+# usage: tools/try_harmless.sh [<patch-file-name>...]      (default: all of harmless/checks.txt)
 # applies each behaviour-preserving rewrite under /verif/harmless to /repo, runs the quick checks named in
 # harmless/checks.txt, and restores /repo.  A check that exits non-zero here is a FALSE ALARM (possibly the
 # permitted kind: "no-failing-input-found" after a proof broke) and is recorded as such.
 cd /verif
 git -C /repo diff --quiet || { echo "/repo is not clean"; exit 2; }
-: > harmless/results.txt
+only=" $* "
+[ $# -eq 0 ] && : > harmless/results.txt
 while read -r patch checks; do
   [ -z "$patch" ] && continue
+  if [ $# -gt 0 ]; then
+    case "$only" in *" $patch "*) grep -v "^$patch " harmless/results.txt > harmless/results.tmp; mv harmless/results.tmp harmless/results.txt ;; *) continue ;; esac
+  fi
   git -C /repo apply /verif/harmless/$patch || { echo "$patch does not apply" | tee -a harmless/results.txt; continue; }
   bk=$(mktemp -d /tmp/evidence_bk.XXXXXX); cp -a /verif/evidence/. $bk/
   for p in $checks; do
